@@ -86,6 +86,11 @@ func (P *curvePoint) genPoint(x *big.Int, rand cipher.Stream) bool {
 	if y2t.Cmp(y2) != 0 {
 		return false // Doesn't yield a valid point!
 	}
+	// The candidate comes from the stream as a 256-bit string and may exceed the field
+	// modulus. crypto/elliptic (and UnmarshalBinary) reject unreduced coordinates.
+	if x.Cmp(P.c.p.P) >= 0 {
+		return false
+	}
 
 	P.x = x
 	P.y = y
